@@ -199,6 +199,7 @@ func (p *vPC) HighWaterMarkOffset() int64             { return 0 }
 type vFakeConsumer struct {
 	started    []*vPC
 	outOfRange map[int64]bool
+	transient  map[int64]int // ConsumePartition at this offset fails this many times with a passing error
 	closed     bool
 }
 
@@ -209,6 +210,10 @@ func (c *vFakeConsumer) Close() error                               { c.closed =
 func (c *vFakeConsumer) ConsumePartition(topic string, partition int32, offset int64) (PartitionConsumer, error) {
 	if c.outOfRange[offset] {
 		return nil, ErrOffsetOutOfRange
+	}
+	if c.transient[offset] > 0 {
+		c.transient[offset]--
+		return nil, ErrNotLeaderForPartition // e.g. a leader election while the offset is validated
 	}
 	pc := &vPC{topic: topic, partition: partition, start: offset, messages: make(chan *ConsumerMessage, 4), errors: make(chan *ConsumerError, 1)}
 	first := offset
@@ -305,12 +310,15 @@ func vC07Session(schedules bool) {
 		co.assign = []int32{0, 1}
 	}
 	co.parts = []int32{0, 1}
-	committed0 := vChoose("committed0", 3) // none, a valid offset, an out-of-range offset
+	committed0 := vChoose("committed0", 4) // none, a valid offset, an out-of-range offset, a valid offset + a passing error when the claim is opened
 	if schedules && vTier() == 0 {
 		vAssume(committed0 == 1 && len(co.assign) <= 1)
 	}
-	fc := &vFakeConsumer{outOfRange: map[int64]bool{}}
+	fc := &vFakeConsumer{outOfRange: map[int64]bool{}, transient: map[int64]int{}}
 	switch committed0 {
+	case 3:
+		co.committed[0] = 40
+		fc.transient[40] = 1
 	case 1:
 		co.committed[0] = 40
 	case 2:
@@ -409,8 +417,8 @@ func vC07Session(schedules bool) {
 	// each claim starts at the committed offset, or the initial position if none / out of range
 	for p := range h.claims {
 		want := OffsetOldest
-		if p == 0 && committed0 == 1 {
-			want = 40
+		if p == 0 && (committed0 == 1 || committed0 == 3) {
+			want = 40 // a passing error is no licence to jump to the initial position
 		}
 		vAssert(h.initial[p] == want, "claim-starts-at-committed-offset-or-initial-position")
 	}
